@@ -78,6 +78,10 @@ def run(F, R):
     # that the release path takes the branch of the chain actually submitted (shared with C01.F1)
     from .C01 import share_fn_rule
     share_fn_rule(F, R, 'E10')
+    # E11: a driver that keeps a token -> buffer map presents each completion with the token the chain was (re)submitted
+    # under: the net driver's receive / recycle custody rules (C16.S4)
+    from .C16 import s4_custody
+    s4_custody(F, R, M, roles, rule='E11', only=('receive', 'recycle_rx_buffer'))
     e9_can_pop(F, R, M, by['can_pop'][0], lfield)
 
 
